@@ -1,3 +1,4 @@
+import re
 """Path summaries of C functions with resolved expressions.
 
 The C-side analogue of sympath: for every enumerated path of a function of
@@ -375,6 +376,14 @@ class Summariser:
                 if truth:
                     raise _Infeasible()
                 return
+        # a pointer known to be NULL on this path is not one of the singletons
+        m = re.match(r'^\((.*) == (Py_None|Py_True|Py_False|Py_NotImplemented)\)$', key)
+        if m and truth and st.facts.get(m.group(1)) is False:
+            raise _Infeasible()
+        if not truth:
+            for single in ('Py_None', 'Py_True', 'Py_False', 'Py_NotImplemented'):
+                if st.facts.get('(%s == %s)' % (key, single)) is True:
+                    raise _Infeasible()
         bind = None
         if raw is not None:
             names = sorted({x.a[0] for x in raw.walk() if x.k == 'var'})
@@ -502,6 +511,11 @@ class Summariser:
                 for v3, st3 in self._fork_bool(val, st2):
                     if v3 is not None and v3.k == 'const' and val is not v3 and False:
                         pass
+                    # a pointer the path established to be NULL is NULL
+                    if v3 is not None and v3.k in ('call', 'var', 'field') and \
+                            st3.facts.get(show(v3)) is False and \
+                            '*' in getattr(self.unit.funcs.get(fn), 'ret', ''):
+                        v3 = mk('null', line=e.line)
                     st3.ret = v3
                     st3.kind = 'return'
                     st3.line = e.line
